@@ -45,6 +45,9 @@ type routeCase struct {
 	// socket layer: the fixed bind port is held by another socket while the call is made - nothing may leave from any
 	// other port
 	BindBusy bool `json:"bind_busy,omitempty"`
+	// BindUnowned (socket layer): the configured bind IP (203.0.113.9) is not an address of this host (a stale DHCP lease, a VPN
+	// that is down): no socket can be bound to it, so - whatever the call returns - nothing reaches any endpoint
+	BindUnowned bool `json:"bind_ip_not_owned_by_host,omitempty"`
 	// socket layer: the fixed bind port has the same NUMBER as the broadcast port (on another local address)
 	BindEqBroadcast bool `json:"bind_port_equals_broadcast_port,omitempty"`
 	// socket layer: the client's event listener is running and has just heard an event FROM THE ADDRESSED CONTROLLER'S SERIAL
@@ -286,6 +289,13 @@ func runSocket(c routeCase) (fail *rp.Fail, skipped bool) {
 		defer hu.Close()
 		defer ht.Close()
 	}
+	if c.BindUnowned {
+		cfg.BindIP = [4]byte{203, 0, 113, 9}
+		if l, err := net.ListenUDP("udp4", &net.UDPAddr{IP: net.IP(cfg.BindIP[:])}); err == nil {
+			l.Close()
+			return nil, true // (this host does own the address, or binds non-local addresses)
+		}
+	}
 	if c.ListenEvent && cfg.HasBroadcast {
 		if lp, err := farm.FreePort([4]byte{127, 0, 0, 1}); err == nil {
 			cfg.HasListen, cfg.ListenIP, cfg.ListenPort = true, [4]byte{127, 0, 0, 1}, lp
@@ -359,7 +369,7 @@ func runSocket(c routeCase) (fail *rp.Fail, skipped bool) {
 		wantTCP = wantMethod == "SendTCP"
 	}
 	wantReq := spec.Request(c.Call.Call)
-	if c.BindBusy {
+	if c.BindBusy || c.BindUnowned {
 		// the configured bind port cannot be used: whatever the call returns, no endpoint may have received anything
 		// (a request can only leave from the configured bind address)
 		for _, name := range names {
@@ -372,7 +382,7 @@ func runSocket(c routeCase) (fail *rp.Fail, skipped bool) {
 				n += p.tcp.Connections()
 			}
 			if n != 0 {
-				return rp.Failf("socket/sent-from-another-port", "%s (route %s): the fixed bind port %d was held by another socket, yet endpoint %s received %d request(s) - they cannot have come from the configured bind address",
+				return rp.Failf("socket/sent-from-another-port", "%s (route %s): the configured bind address (port %d) could not be used (port held by another socket, or an IP this host does not own), yet endpoint %s received %d request(s) - they cannot have come from the configured bind address",
 					c.Call.Call.Op, wantMethod, cfg.BindPort, name, n), false
 			}
 		}
@@ -457,6 +467,9 @@ func check(c routeCase) *rp.Fail {
 	if c.BindBusy {
 		ev.Class(c.Layer+"/fixed-bind-port-held-by-another-socket", 1)
 	}
+	if c.BindUnowned {
+		ev.Class(c.Layer+"/bind-ip-not-owned-by-the-host", 1)
+	}
 	if len(c.More) > 0 {
 		ev.Class(c.Layer+"/further-calls-on-the-same-client", int64(len(c.More)))
 	}
@@ -503,6 +516,44 @@ func hostIPs() [][4]byte {
 					out = append(out, [4]byte{v4[0], v4[1], v4[2], v4[3]})
 				}
 			}
+		}
+	}
+	return out
+}
+
+// hostNetAddrs: addresses derived from this host's interfaces (loopback included) that a configuration may well name for a
+// controller: the directed broadcast address and the network address of each subnet, a neighbour on the subnet, the
+// interface's own address. At the hook layer nothing is sent, so any of them can be used.
+func hostNetAddrs() [][4]byte {
+	var out [][4]byte
+	ifs, err := net.Interfaces()
+	if err != nil {
+		return nil
+	}
+	for _, i := range ifs {
+		if i.Flags&net.FlagUp == 0 {
+			continue
+		}
+		addrs, _ := i.Addrs()
+		for _, a := range addrs {
+			n, ok := a.(*net.IPNet)
+			if !ok {
+				continue
+			}
+			ip, mask := n.IP.To4(), n.Mask
+			if ip == nil || len(mask) != 4 {
+				continue
+			}
+			var own, network, bcast, neighbour [4]byte
+			for k := 0; k < 4; k++ {
+				own[k], network[k], bcast[k] = ip[k], ip[k]&mask[k], ip[k]|^mask[k]
+			}
+			neighbour = network
+			neighbour[3] |= 1
+			if neighbour == own {
+				neighbour[3] ^= 3
+			}
+			out = append(out, bcast, network, neighbour, own)
 		}
 	}
 	return out
@@ -569,6 +620,9 @@ func genCase(layer string) func(t *rapid.T) routeCase {
 				if d.IP == [4]byte{} {
 					d.IP = [4]byte{10, 0, 0, byte(1 + i)}
 				}
+				if nets := hostNetAddrs(); layer == "hook" && len(nets) > 0 && rapid.IntRange(0, 3).Draw(t, "host.net") == 0 {
+					d.IP = nets[rapid.IntRange(0, len(nets)-1).Draw(t, "host.net.addr")]
+				}
 				if rapid.IntRange(0, 5).Draw(t, "mapped") == 0 {
 					// the same IPv4 address held in its IPv4-mapped IPv6 form (what netip.AddrFromSlice(net.ParseIP(..)) gives)
 					d.RawIP = fmt.Sprintf("::ffff:%d.%d.%d.%d", d.IP[0], d.IP[1], d.IP[2], d.IP[3])
@@ -604,6 +658,9 @@ func genCase(layer string) func(t *rapid.T) routeCase {
 		if layer == "socket" && c.Cfg.BindPort != 0 && c.Cfg.BindIP != [4]byte{} {
 			c.BindBusy = rapid.IntRange(0, 3).Draw(t, "bind.busy") == 0
 			c.BindEqBroadcast = !c.BindBusy && rapid.IntRange(0, 2).Draw(t, "bind.eq.broadcast") == 0
+		}
+		if layer == "socket" && !c.BindBusy && rapid.IntRange(0, 7).Draw(t, "bind.unowned") == 0 {
+			c.BindUnowned, c.BindEqBroadcast = true, false
 		}
 		if layer == "socket" && c.Cfg.HasBroadcast {
 			c.ListenEvent = rapid.IntRange(0, 3).Draw(t, "listen.event") == 0
